@@ -150,7 +150,7 @@ def run_case(case, ctx):
     else:
         # dense scan, reported only
         br = rc.breaks()
-        best = min(math.dist(at(float(x0) + (float(x1) - float(x0)) * k / 64), point) for x0, x1 in zip(br, br[1:]) for k in range(65))
+        best = min(math.dist(at(min(max(float(x0) + (float(x1) - float(x0)) * k / 64, umin), umax)), point) for x0, x1 in zip(br, br[1:]) for k in range(65))
         ctx.count("smooth_global_min_hit" if dret <= best + 1e-6 * sc else "smooth_global_min_missed")
         if mode == "on":
             # special case of global minimality, which the statement guarantees for polylines only: reported
